@@ -34,6 +34,54 @@ int main(int argc, char** argv)
             r.history_no = job - 1;
             r.run(h);
         }
+    } else if (argc == 4 && std::string(argv[1]) == "many") {
+        // One output that receives very many blocks (max_block_items = 1, n records), closed by a rotation; then a second
+        // output with a few blocks, closed by destruction.  Only sizes and counts are logged (the files are MiB large):
+        // reported byte counts, file sizes, blocks and record ids the library's reader returns, occurrences of the file
+        // type id.  {"e":"MANY", ...} is judged by TraceExporter.
+        vh::trace().open(argv[3]);
+        vh::install_crash_handlers();
+        for (uint64_t n : {static_cast<uint64_t>(atoll(argv[2]))}) {
+            std::string p1 = g_tmpdir + "/many_" + std::to_string(getpid()) + "_1", p2 = g_tmpdir + "/many_" + std::to_string(getpid()) + "_2";
+            uint64_t rep1 = 0, rep2 = 0, nz = 0;
+            {
+                FilePreamble fp;
+                fp.m_block_parameters[0].storage_parameters.max_block_items = 1;
+                CdnsExporter ex(fp, p1, CborOutputCompression::NO_COMPRESSION);
+                for (uint64_t i = 0; i < n; i++) {
+                    GenericQueryResponse g; g.transaction_id = static_cast<uint16_t>(i & 0xFFFF); g.client_port = static_cast<uint16_t>((i >> 16) + 1);
+                    std::size_t r = ex.buffer_qr(g); rep1 += r; if (r) nz++;
+                }
+                rep1 += ex.rotate_output(p2, true);
+                for (uint64_t i = 0; i < 3; i++) { GenericQueryResponse g; g.transaction_id = static_cast<uint16_t>(i); rep2 += ex.buffer_qr(g); }
+            }
+            auto summary = [&](const std::string& path, uint64_t want) {
+                std::string data = vh::read_file(path);
+                uint64_t blocks = 0, ids_ok = 1, headers = 0;
+                std::string fin = "eof";
+                for (size_t pos = data.find("eC-DNS"); pos != std::string::npos; pos = data.find("eC-DNS", pos + 1)) headers++;
+                try {
+                    std::istringstream is(data, std::ios::binary);
+                    CdnsReader rd(is);
+                    bool eof = false;
+                    uint64_t i = 0;
+                    while (true) {
+                        CdnsBlockRead b = rd.read_block(eof);
+                        if (eof) break;
+                        blocks++;
+                        bool end = false;
+                        while (true) { GenericQueryResponse g = b.read_generic_qr(end); if (end) break;
+                                       if (!g.transaction_id || *g.transaction_id != (i & 0xFFFF)) ids_ok = 0; i++; }
+                    }
+                    if (i != want) ids_ok = 0;
+                } catch (CdnsDecoderEnd&) { fin = "end"; } catch (std::exception&) { fin = "err"; }
+                unlink(path.c_str());
+                return json{{"size", data.size()}, {"blocks", blocks}, {"ids_ok", ids_ok == 1}, {"headers", headers}, {"fin", fin},
+                            {"last", data.empty() ? -1 : static_cast<int>(static_cast<unsigned char>(data.back()))}};
+            };
+            vh::trace().emit({{"e", "MANY"}, {"n", n}, {"nonzero_returns", nz}, {"rep1", rep1}, {"rep2", rep2},
+                              {"out1", summary(p1, n)}, {"out2", summary(p2, 3)}});
+        }
     } else if (argc == 7 && std::string(argv[1]) == "run2") {
         unsigned shard = atoi(argv[3]), nshards = atoi(argv[4]);
         vh::trace().open(argv[5]);
